@@ -1,11 +1,345 @@
 (* C13 — Quadtree enumeration and tile counts are consistent and match what is visited.
-   Statements only; proofs live in Proofs/. *)
+   Statements only; proofs live in Proofs/ (QuadtreeP, ReducerP, EnumP, CountsP).
+
+   Reading guide.  [pwalk k acc p] is the enumeration every generator yields below the
+   apex ([k] levels, filter [acc]); [riter_refines] (ReducerP) shows that running the
+   coded PyramidReductionIterator over the coded generator of any well-formed pyramid
+   equals structural recursion over that enumeration.  [spec_leaves], [spec_live],
+   [spec_ops] are the in-scope accepted leaves / live tiles / live non-leaves in
+   generator order.  [desc_ok acc p q m]: q lies m levels below p, p = ancestor m q,
+   and q and all its ancestors up to p are accepted.  [cfirst l]: no child of an
+   element of l occurs after it. *)
 From Coq Require Import List NArith Arith Bool.
-From Toasty Require Import Model.Quadtree Model.Reducer Proofs.QuadtreeP.
+From Toasty Require Import Model.Quadtree Model.Reducer Proofs.QuadtreeP Proofs.ReducerP
+  Proofs.EnumP Proofs.CountsP.
 Import ListNotations.
 Local Open Scope N_scope.
+
+(* ---- 1. parent, children and is-descendant agree --------------------------------- *)
 
 Theorem parent_children_agree :
   forall p c, In c (children p) <-> (exists ix iy, parent c = Some (p, ix, iy)).
 Proof. exact parent_children_iff. Qed.
 Print Assumptions parent_children_agree.
+
+Theorem is_subtile_error_iff :
+  forall c p, is_subtile c p = None <-> (pn c < pn p)%nat.
+Proof. exact is_subtile_none. Qed.
+Print Assumptions is_subtile_error_iff.
+
+Theorem is_subtile_iff_ancestor :
+  forall c p b, is_subtile c p = Some b ->
+    (pn p <= pn c)%nat /\
+    (b = true <-> exists m, ancestor m c = p /\ m = (pn c - pn p)%nat).
+Proof. exact is_subtile_ancestor. Qed.
+Print Assumptions is_subtile_iff_ancestor.
+
+Theorem is_subtile_shift :
+  forall c p, (pn p <= pn c)%nat -> is_subtile c p = Some (below c p).
+Proof. exact is_subtile_below. Qed.
+Print Assumptions is_subtile_shift.
+
+Theorem below_iff_ancestor :
+  forall c p, below c p = true <-> (pn p <= pn c)%nat /\ ancestor (pn c - pn p) c = p.
+Proof. exact below_iff. Qed.
+Print Assumptions below_iff_ancestor.
+
+Theorem children_are_subtiles :
+  forall p c, In c (children p) -> is_subtile c p = Some true.
+Proof. exact child_is_subtile. Qed.
+Print Assumptions children_are_subtiles.
+
+(* ---- 2. generate_pos ---------------------------------------------------------------- *)
+
+Theorem generate_pos_nodup : forall d, NoDup (generate_pos d).
+Proof. exact generate_pos_NoDup. Qed.
+Print Assumptions generate_pos_nodup.
+
+Theorem generate_pos_members :
+  forall d q, In q (generate_pos d) <-> valid q = true /\ (pn q <= d)%nat.
+Proof. exact generate_pos_in. Qed.
+Print Assumptions generate_pos_members.
+
+Theorem generate_pos_count :
+  forall d, N.of_nat (length (generate_pos d)) = depth2tiles d.
+Proof. exact generate_pos_length. Qed.
+Print Assumptions generate_pos_count.
+
+Theorem generate_pos_children_before :
+  forall d l1 q l2, generate_pos d = l1 ++ q :: l2 -> (pn q < d)%nat ->
+    forall c, In c (children q) -> In c l1.
+Proof. exact generate_pos_children_first. Qed.
+Print Assumptions generate_pos_children_before.
+
+(* ---- 3. the accepted-tree enumeration ------------------------------------------------ *)
+
+Theorem enum_nodup : forall k acc p, NoDup (pwalk k acc p).
+Proof. exact pwalk_NoDup. Qed.
+Print Assumptions enum_nodup.
+
+Theorem enum_members :
+  forall k acc p q,
+    In q (pwalk k acc p) <-> exists m, (m < k)%nat /\ desc_ok acc p q m.
+Proof. exact pwalk_in. Qed.
+Print Assumptions enum_members.
+
+Theorem enum_children_before :
+  forall k acc p l1 q l2 c,
+    pwalk k acc p = l1 ++ q :: l2 -> In c (children q) -> In c (pwalk k acc p) -> In c l1.
+Proof. exact pwalk_children_first. Qed.
+Print Assumptions enum_children_before.
+
+(* an accepted child within depth does occur (so: before its parent) *)
+Theorem enum_child_present :
+  forall k acc p q c,
+    In q (pwalk k acc p) -> In c (children q) -> acc c = true -> (pn c < pn p + k)%nat ->
+    In c (pwalk k acc p).
+Proof. exact pwalk_child_in. Qed.
+Print Assumptions enum_child_present.
+
+(* the iterator over the coded generator = recursion over that enumeration (every kind,
+   filter, apex, step function and default) *)
+Theorem riter_refines_tree_reduce :
+  forall (A : Type) (f : pos -> bool -> A * A * A * A -> A) (d : A) (P : pyr),
+    wf_pyr P ->
+    riter_run f d P =
+    if apex_reachable P
+    then ROk (tree_log f d (sub_levels P) (in_filter P) (apex P))
+             (tree_reduce f d (sub_levels P) (in_filter P) (apex P))
+    else ROk [] d.
+Proof. exact (@riter_refines). Qed.
+Print Assumptions riter_refines_tree_reduce.
+
+(* ---- 4. the counters ------------------------------------------------------------------ *)
+
+Theorem count_leaf_tiles_correct :
+  forall P, wf_pyr P -> count_leaf_tiles P = Some (N.of_nat (length (spec_leaves P))).
+Proof. exact count_leaf_correct. Qed.
+Print Assumptions count_leaf_tiles_correct.
+
+Theorem count_live_tiles_correct :
+  forall P, wf_pyr P -> count_live_tiles P = Some (N.of_nat (length (spec_live P))).
+Proof. exact count_live_correct. Qed.
+Print Assumptions count_live_tiles_correct.
+
+Theorem count_operations_correct :
+  forall P, wf_pyr P -> count_operations P = Some (N.of_nat (length (spec_ops P))).
+Proof. exact count_ops_correct. Qed.
+Print Assumptions count_operations_correct.
+
+Theorem ops_plus_leaves_eq_live :
+  forall P, wf_pyr P ->
+    (length (spec_ops P) + length (spec_leaves P) = length (spec_live P))%nat.
+Proof. exact ops_leaves_live. Qed.
+Print Assumptions ops_plus_leaves_eq_live.
+
+Theorem counters_sum :
+  forall P, wf_pyr P ->
+    exists o l v, count_operations P = Some o /\ count_leaf_tiles P = Some l /\
+                  count_live_tiles P = Some v /\ o + l = v.
+Proof. exact counts_sum. Qed.
+Print Assumptions counters_sum.
+
+(* closed forms when no filter is active (including apex depth = depth and depth 0) *)
+Theorem closed_form_leaves :
+  forall P, wf_pyr P -> has_filter P = false ->
+    N.of_nat (length (spec_leaves P)) = 4 ^ N.of_nat (depth P - pn (apex P)).
+Proof. exact nofilter_leaves. Qed.
+Print Assumptions closed_form_leaves.
+
+Theorem closed_form_live :
+  forall P, wf_pyr P -> has_filter P = false ->
+    N.of_nat (length (spec_live P)) = (4 ^ (N.of_nat (depth P - pn (apex P)) + 1) - 1) / 3.
+Proof. exact nofilter_live. Qed.
+Print Assumptions closed_form_live.
+
+Theorem closed_form_ops :
+  forall P, wf_pyr P -> has_filter P = false ->
+    N.of_nat (length (spec_ops P)) = (4 ^ N.of_nat (depth P - pn (apex P)) - 1) / 3.
+Proof. exact nofilter_ops. Qed.
+Print Assumptions closed_form_ops.
+
+(* the reducer gives the right number whether or not the shortcut is taken, so the
+   analytic shortcut and the reducer coincide where the shortcut applies *)
+Theorem shortcut_equals_reducer :
+  forall P, wf_pyr P -> has_filter P = false ->
+    res_or 0 (riter_run f_leaf 0 P) = Some (tiles_at_depth (depth P - pn (apex P))) /\
+    res_or 0 (riter_run f_live 0 P) = Some (depth2tiles (depth P - pn (apex P))) /\
+    option_map snd (res_or (false, 0) (riter_run f_ops (false, 0) P)) =
+      Some ((4 ^ N.of_nat (depth P - pn (apex P)) - 1) / 3).
+Proof. exact shortcut_eq_reducer. Qed.
+Print Assumptions shortcut_equals_reducer.
+
+(* ---- 5. what the serial leaf visit and the serial walk call back ------------------- *)
+
+Theorem visit_leaves_serial_spec :
+  forall P, wf_pyr P -> visit_serial P = Some (spec_leaves P).
+Proof. exact visit_serial_spec. Qed.
+Print Assumptions visit_leaves_serial_spec.
+
+Theorem walk_serial_callbacks :
+  forall P, wf_pyr P -> walk_serial P = Some (spec_ops P).
+Proof. exact walk_serial_spec. Qed.
+Print Assumptions walk_serial_callbacks.
+
+Theorem visited_once :
+  forall P, NoDup (spec_leaves P) /\ NoDup (spec_live P) /\ NoDup (spec_ops P).
+Proof. exact spec_NoDup. Qed.
+Print Assumptions visited_once.
+
+Theorem leaves_members :
+  forall P q, In q (spec_leaves P) <-> in_tree P q /\ pn q = depth P.
+Proof. exact spec_leaves_in. Qed.
+Print Assumptions leaves_members.
+
+(* live = in the accepted tree under the apex, with an accepted deepest-level tile
+   reachable through accepted tiles *)
+Theorem live_members :
+  forall P q, wf_pyr P ->
+    (In q (spec_live P) <->
+     in_tree P q /\
+     exists l, In l (pwalk (S (depth P) - pn q) (in_filter P) q) /\ pn l = depth P).
+Proof. exact spec_live_in. Qed.
+Print Assumptions live_members.
+
+Theorem ops_members :
+  forall P q, In q (spec_ops P) <-> In q (spec_live P) /\ pn q <> depth P.
+Proof. exact spec_ops_in. Qed.
+Print Assumptions ops_members.
+
+(* never a leaf (walk), a rejected tile or a tile outside the sub-pyramid *)
+Theorem walk_scope :
+  forall P q, wf_pyr P -> In q (spec_ops P) ->
+    in_filter P q = true /\ below q (apex P) = true /\ (pn (apex P) <= pn q < depth P)%nat.
+Proof. exact spec_ops_scope. Qed.
+Print Assumptions walk_scope.
+
+Theorem visit_scope :
+  forall P q, In q (spec_leaves P) ->
+    in_filter P q = true /\ below q (apex P) = true /\ pn q = depth P.
+Proof. exact spec_leaves_scope. Qed.
+Print Assumptions visit_scope.
+
+Theorem walk_children_before :
+  forall P l1 q l2 c,
+    spec_ops P = l1 ++ q :: l2 -> In c (children q) -> In c (spec_ops P) -> In c l1.
+Proof. exact spec_ops_children_first. Qed.
+Print Assumptions walk_children_before.
+
+(* ---- 6. sub-pyramid restriction -------------------------------------------------------- *)
+
+(* P is any pyramid whose apex is the root (in particular the full pyramid, sub P = false);
+   the record on the left is what subpyramid(a) returns for it. *)
+
+Theorem subpyramid_restriction_live :
+  forall P a, apex P = root -> valid a = true -> (pn a <= depth P)%nat ->
+    spec_live (mkPyr (kd P) (depth P) (ufilt P) a true) =
+    filter (fun q => below q a) (spec_live P).
+Proof. exact restrict_live. Qed.
+Print Assumptions subpyramid_restriction_live.
+
+Theorem subpyramid_restriction_leaves :
+  forall P a, apex P = root -> valid a = true -> (pn a <= depth P)%nat ->
+    spec_leaves (mkPyr (kd P) (depth P) (ufilt P) a true) =
+    filter (fun q => below q a) (spec_leaves P).
+Proof. exact restrict_leaves. Qed.
+Print Assumptions subpyramid_restriction_leaves.
+
+Theorem subpyramid_restriction_ops :
+  forall P a, apex P = root -> valid a = true -> (pn a <= depth P)%nat ->
+    spec_ops (mkPyr (kd P) (depth P) (ufilt P) a true) =
+    filter (fun q => below q a) (spec_ops P).
+Proof. exact restrict_ops. Qed.
+Print Assumptions subpyramid_restriction_ops.
+
+Theorem subpyramid_restriction_counts :
+  forall P a, apex P = root -> valid a = true -> (pn a <= depth P)%nat ->
+    count_live_tiles (mkPyr (kd P) (depth P) (ufilt P) a true) =
+      Some (N.of_nat (length (filter (fun q => below q a) (spec_live P)))) /\
+    count_leaf_tiles (mkPyr (kd P) (depth P) (ufilt P) a true) =
+      Some (N.of_nat (length (filter (fun q => below q a) (spec_leaves P)))) /\
+    count_operations (mkPyr (kd P) (depth P) (ufilt P) a true) =
+      Some (N.of_nat (length (filter (fun q => below q a) (spec_ops P)))).
+Proof. exact restrict_counts. Qed.
+Print Assumptions subpyramid_restriction_counts.
+
+(* a rejected ancestor of the apex: nothing in the sub-pyramid, and nothing of the
+   full result lies below the apex *)
+Theorem subpyramid_unreachable :
+  forall P a, apex P = root -> valid a = true -> (pn a <= depth P)%nat ->
+    apex_reachable (mkPyr (kd P) (depth P) (ufilt P) a true) = false ->
+    spec_live (mkPyr (kd P) (depth P) (ufilt P) a true) = [] /\
+    spec_leaves (mkPyr (kd P) (depth P) (ufilt P) a true) = [] /\
+    spec_ops (mkPyr (kd P) (depth P) (ufilt P) a true) = [] /\
+    forall q, In q (spec_live P) -> below q a = false.
+Proof. exact restrict_unreachable. Qed.
+Print Assumptions subpyramid_unreachable.
+
+(* ---- non-vacuity: concrete non-trivial instances --------------------------------------- *)
+
+Example relations_nonvacuous :
+  is_subtile (mkPos 3 5 6) (mkPos 1 1 1) = Some true /\
+  is_subtile (mkPos 3 5 6) (mkPos 1 0 1) = Some false /\
+  is_subtile (mkPos 1 0 0) (mkPos 2 0 0) = None /\
+  ancestor 2 (mkPos 3 5 6) = mkPos 1 1 1 /\
+  below (mkPos 3 5 6) (mkPos 1 1 1) = true.
+Proof. vm_compute; repeat split; reflexivity. Qed.
+
+Example generate_pos_nonvacuous :
+  generate_pos 1 = [mkPos 1 0 0; mkPos 1 1 0; mkPos 1 0 1; mkPos 1 1 1; root] /\
+  length (generate_pos 3) = 85%nat /\ depth2tiles 3 = 85.
+Proof. vm_compute; repeat split; reflexivity. Qed.
+
+(* a filtered depth-3 pyramid with an accepted-but-childless tile (2,2,0) and a gap
+   tile (3,7,7) whose parent is rejected *)
+Example wf_nonvacuous :
+  (valid (apex ex_full) && Nat.leb (pn (apex ex_full)) (depth ex_full) &&
+   valid (apex ex_sub) && Nat.leb (pn (apex ex_sub)) (depth ex_sub) &&
+   valid (apex ex_sub_deep) && Nat.leb (pn (apex ex_sub_deep)) (depth ex_sub_deep) &&
+   valid (apex ex_generic_sub) && Nat.leb (pn (apex ex_generic_sub)) (depth ex_generic_sub))%bool
+  = true.
+Proof. vm_compute; reflexivity. Qed.
+
+Example counts_nonvacuous :
+  (count_leaf_tiles ex_full, count_live_tiles ex_full, count_operations ex_full)
+    = (Some 3, Some 7, Some 4) /\
+  (count_leaf_tiles ex_sub, count_live_tiles ex_sub, count_operations ex_sub)
+    = (Some 3, Some 6, Some 3) /\
+  (* apex depth = pyramid depth *)
+  (count_leaf_tiles ex_sub_deep, count_live_tiles ex_sub_deep, count_operations ex_sub_deep)
+    = (Some 1, Some 1, Some 0) /\
+  (* analytic shortcut, generic sub-pyramid *)
+  has_filter ex_generic_sub = false /\
+  (count_leaf_tiles ex_generic_sub, count_live_tiles ex_generic_sub,
+   count_operations ex_generic_sub) = (Some 4, Some 5, Some 1) /\
+  length (spec_live ex_generic_sub) = 5%nat /\
+  (* reducer branch on an unfiltered TOAST sub-pyramid *)
+  has_filter ex_toast_sub = true /\
+  (count_leaf_tiles ex_toast_sub, count_live_tiles ex_toast_sub,
+   count_operations ex_toast_sub) = (Some 4, Some 5, Some 1) /\
+  (* depth 0 *)
+  (count_leaf_tiles ex_depth0, count_live_tiles ex_depth0, count_operations ex_depth0)
+    = (Some 1, Some 1, Some 0).
+Proof. vm_compute; repeat split; reflexivity. Qed.
+
+Example visits_nonvacuous :
+  visit_serial ex_full = Some [mkPos 3 0 0; mkPos 3 1 1; mkPos 3 2 2] /\
+  walk_serial ex_full = Some [mkPos 2 0 0; mkPos 2 1 1; mkPos 1 0 0; root] /\
+  walk_serial ex_sub = Some [mkPos 2 0 0; mkPos 2 1 1; mkPos 1 0 0] /\
+  spec_live ex_full =
+    [mkPos 3 0 0; mkPos 3 1 1; mkPos 2 0 0; mkPos 3 2 2; mkPos 2 1 1; mkPos 1 0 0; root] /\
+  (* zero operations: the walk returns before iterating *)
+  walk_serial ex_sub_deep = Some [] /\ visit_serial ex_sub_deep = Some [mkPos 3 1 1].
+Proof. vm_compute; repeat split; reflexivity. Qed.
+
+Example restriction_nonvacuous :
+  spec_live ex_sub = filter (fun q => below q (mkPos 1 0 0)) (spec_live ex_full) /\
+  length (spec_live ex_sub) = 6%nat /\
+  (* filter disjoint from the sub-pyramid: apex reachable but rejected *)
+  apex_reachable ex_sub_disjoint = true /\ spec_live ex_sub_disjoint = [] /\
+  filter (fun q => below q (mkPos 1 1 1)) (spec_live ex_full) = [] /\
+  count_live_tiles ex_sub_disjoint = Some 0 /\ walk_serial ex_sub_disjoint = Some [] /\
+  (* accepted apex below a rejected ancestor *)
+  apex_reachable ex_sub_gap = false /\ in_filter ex_sub_gap (apex ex_sub_gap) = true /\
+  count_leaf_tiles ex_sub_gap = Some 0 /\ visit_serial ex_sub_gap = Some [].
+Proof. vm_compute; repeat split; reflexivity. Qed.
